@@ -4,29 +4,29 @@
 # with the change and PASS without it; with "suite" the existing test suite is run with the change.
 id=$1
 export GOFLAGS=-mod=mod GOPROXY=off GOSUMDB=off GOTOOLCHAIN=local
-cd /tmp/mut2/$id || exit 2
+MUT=${MUT:-/tmp/mut2}; cd $MUT/$id || exit 2
 eval $(python3 - <<PY
 import json
 m=json.load(open('_seed/meta.json'))
 print('dir=%s; tf=%s; rx=%s' % (m['demo_pkg_dir'].rstrip('/'), m['demo_file'], "'"+m['demo_run_regex']+"'"))
 PY
 )
-git diff > /tmp/mut2/$id.cur.diff
+git diff > $MUT/$id.cur.diff
 git apply --check -R _seed/patch.diff 2>/dev/null || echo "$id WARNING: patch.diff is not what is applied in the worktree"
 cp _seed/$tf $dir/$tf
-go test -vet=off -count=1 -run "$rx" ./$dir/ >/tmp/mut2/$id.with.log 2>&1; with=$?
+go test -vet=off -count=1 -run "$rx" ./$dir/ >$MUT/$id.with.log 2>&1; with=$?
 rm -f $dir/$tf
 suite=skipped
 if [ "$2" = suite ]; then
-  go build ./... >/tmp/mut2/$id.suite.log 2>&1 && go test -vet=off -count=1 ./... >>/tmp/mut2/$id.suite.log 2>&1; suite=$?
+  go build ./... >$MUT/$id.suite.log 2>&1 && go test -vet=off -count=1 ./... >>$MUT/$id.suite.log 2>&1; suite=$?
   if [ $suite != 0 ]; then   # the known flaky test: retry pkg/mod once
-    grep -q "^FAIL" /tmp/mut2/$id.suite.log && grep "^--- FAIL\|^FAIL" /tmp/mut2/$id.suite.log | head -5
-    go test -vet=off -count=1 ./... >/tmp/mut2/$id.suite2.log 2>&1; suite="$suite,retry=$?"
+    grep -q "^FAIL" $MUT/$id.suite.log && grep "^--- FAIL\|^FAIL" $MUT/$id.suite.log | head -5
+    go test -vet=off -count=1 ./... >$MUT/$id.suite2.log 2>&1; suite="$suite,retry=$?"
   fi
 fi
 git stash -q
 cp _seed/$tf $dir/$tf
-go test -vet=off -count=1 -run "$rx" ./$dir/ >/tmp/mut2/$id.without.log 2>&1; without=$?
+go test -vet=off -count=1 -run "$rx" ./$dir/ >$MUT/$id.without.log 2>&1; without=$?
 rm -f $dir/$tf
 git stash pop -q
 echo "$id demo with-change rc=$with (want !=0), without rc=$without (want 0), suite-with-change rc=$suite"
